@@ -49,7 +49,16 @@ type c03Viol struct {
 
 // c03NearMiss is the value with the letters of its path in the other case: equal under a
 // case-insensitive comparison, different as the exact string the statement asks for.
-func c03NearMiss(v string) string {
+func c03NearMiss(v string, kind ...int) string {
+	if len(kind) > 0 && kind[0] == 1 {
+		if strings.HasSuffix(v, "/") {
+			return strings.TrimSuffix(v, "/")
+		}
+		return v + "/"
+	}
+	if len(kind) > 0 && kind[0] == 2 {
+		return " " + v + "\n"
+	}
 	i := strings.Index(v, "//")
 	j := strings.Index(v[i+2:], "/")
 	if i < 0 || j < 0 {
@@ -75,6 +84,10 @@ func c03Spec(d c03Dims, cfg int) idp.ResponseSpec {
 		r.Destination = "https://evil.example.com/acs"
 	case 4:
 		r.Destination = c03NearMiss(world.ACS) // differs in letter case only
+	case 5:
+		r.Destination = c03NearMiss(world.ACS, 1) // differs by a trailing slash
+	case 6:
+		r.Destination = c03NearMiss(world.ACS, 2) // surrounded by whitespace
 	}
 	switch d.Issuer {
 	case 1:
@@ -83,6 +96,10 @@ func c03Spec(d c03Dims, cfg int) idp.ResponseSpec {
 		r.Issuer = idp.Absent
 	case 3:
 		r.Issuer = c03NearMiss(world.IDPIssuer)
+	case 4:
+		r.Issuer = c03NearMiss(world.IDPIssuer, 1)
+	case 5:
+		r.Issuer = c03NearMiss(world.IDPIssuer, 2)
 	}
 	switch d.Status {
 	case 1:
@@ -107,6 +124,10 @@ func c03Spec(d c03Dims, cfg int) idp.ResponseSpec {
 			a.Issuer = idp.Absent
 		case 3:
 			a.Issuer = c03NearMiss(world.IDPIssuer)
+		case 4:
+			a.Issuer = c03NearMiss(world.IDPIssuer, 1)
+		case 5:
+			a.Issuer = c03NearMiss(world.IDPIssuer, 2)
 		}
 		switch d.A[i][1] {
 		case 1:
@@ -125,6 +146,10 @@ func c03Spec(d c03Dims, cfg int) idp.ResponseSpec {
 			a.Recipient = idp.Absent
 		case 3:
 			a.Recipient = c03NearMiss(world.ACS)
+		case 4:
+			a.Recipient = c03NearMiss(world.ACS, 1)
+		case 5:
+			a.Recipient = c03NearMiss(world.ACS, 2)
 		}
 		switch d.A[i][3] {
 		case 1:
@@ -162,7 +187,7 @@ func c03Model(d c03Dims, cfg int) []c03Viol {
 	if d.Issuer == 2 {
 		v = append(v, c03Viol{"Response Issuer absent", []string{"Issuer"}, []string{"ErrMissingElement"}})
 	}
-	if (d.Issuer == 1 || d.Issuer == 3) && issuerConfigured {
+	if (d.Issuer == 1 || d.Issuer >= 3) && issuerConfigured {
 		v = append(v, c03Viol{"Response Issuer wrong", []string{"Issuer"}, []string{"ErrInvalidValue"}})
 	}
 	switch d.Status {
@@ -185,7 +210,7 @@ func c03Model(d c03Dims, cfg int) []c03Viol {
 		if a[0] == 2 {
 			v = append(v, c03Viol{pos + "Issuer absent", []string{"Issuer"}, []string{"ErrMissingElement"}})
 		}
-		if (a[0] == 1 || a[0] == 3) && issuerConfigured {
+		if (a[0] == 1 || a[0] >= 3) && issuerConfigured {
 			v = append(v, c03Viol{pos + "Issuer wrong", []string{"Issuer"}, []string{"ErrInvalidValue"}})
 		}
 		switch a[1] {
@@ -343,14 +368,14 @@ func c03Gen(n int) func(c *mc.Chooser) c03Dims {
 	return func(c *mc.Chooser) c03Dims {
 		d := c03Dims{N: n}
 		d.Version = c.Choose("version", 3)
-		d.Dest = c.Choose("dest", 5)
-		d.Issuer = c.Choose("issuer", 4)
+		d.Dest = c.Choose("dest", 7)
+		d.Issuer = c.Choose("issuer", 6)
 		d.Status = c.Choose("status", 6)
 		for i := 0; i < n; i++ {
 			var a [4]int
-			a[0] = c.Choose(fmt.Sprintf("a%d.issuer", i), 4)
+			a[0] = c.Choose(fmt.Sprintf("a%d.issuer", i), 6)
 			a[1] = c.Choose(fmt.Sprintf("a%d.structure", i), 5)
-			a[2] = c.Choose(fmt.Sprintf("a%d.recipient", i), 4)
+			a[2] = c.Choose(fmt.Sprintf("a%d.recipient", i), 6)
 			a[3] = c.Choose(fmt.Sprintf("a%d.notonorafter", i), 5)
 			d.A = append(d.A, a)
 		}
@@ -407,9 +432,9 @@ func c03Run(r *mc.Run) {
 			r.Violation(k, detail, c)
 		}
 	})
-	stride := 1
+	stride := 3 // co-prime with the number of configurations: every configuration is visited
 	if r.Thorough() {
-		stride = 8
+		stride = 9
 	}
 	livePass(r, len(cases), stride, 90*time.Second, func(i int) string {
 		keys, _, class := c03Exec(cases[i])
